@@ -1,4 +1,5 @@
 mod common;
+mod access;
 mod rawdb_engine;
 mod vec_engine;
 mod compute_engine;
